@@ -22,8 +22,14 @@ var panicFiles = []string{"reader/reader.go", "ipfix/decoder.go", "ipfix/interpr
 	"sflow/decoder.go", "sflow/flow_sample.go", "sflow/flow_counter.go", "packet/packet.go", "packet/ethernet.go",
 	"packet/network.go", "packet/transport.go", "packet/icmp.go"}
 
+// guardFiles: the files whose control flow the decoder models mirror by hand; every branch and loop condition
+// is listed in source order (C09 / C03 / C06 / C07 / C08: a changed bound or dispatch constant changes this list)
+var guardFiles = map[string]bool{"reader/reader.go": true, "ipfix/decoder.go": true, "netflow/v9/decoder.go": true,
+	"netflow/v5/decoder.go": true, "sflow/decoder.go": true, "sflow/flow_sample.go": true, "sflow/flow_counter.go": true,
+	"packet/packet.go": true, "packet/ethernet.go": true, "packet/network.go": true, "packet/transport.go": true, "packet/icmp.go": true}
+
 func genSites(repo string) (genFile, error) {
-	var allocs, panics []string
+	var allocs, panics, guards []string
 	walk := func(rel string, wantAlloc, wantPanic bool) error {
 		fset, f, err := parseFile(repo, rel)
 		if err != nil {
@@ -43,7 +49,74 @@ func genSites(repo string) (genFile, error) {
 				name = src(fset, t) + "." + name
 			}
 			commaOk := map[ast.Node]bool{}
+			wantGuard := guardFiles[rel]
+			errCheck := func(e ast.Expr) bool { t := src(fset, e); return t == "err != nil" || t == "err == nil" }
 			ast.Inspect(fd.Body, func(n ast.Node) bool {
+				switch x := n.(type) {
+				case *ast.IfStmt:
+					// plain error propagation carries no decision of its own; everything else is listed
+					if wantGuard && !errCheck(x.Cond) {
+						guards = append(guards, fmt.Sprintf("%s %s: if %s", rel, name, src(fset, x.Cond)))
+					}
+				case *ast.ForStmt:
+					if wantGuard {
+						h := ""
+						if x.Init != nil {
+							h += src(fset, x.Init)
+						}
+						h += "; "
+						if x.Cond != nil {
+							h += src(fset, x.Cond)
+						}
+						h += "; "
+						if x.Post != nil {
+							h += src(fset, x.Post)
+						}
+						guards = append(guards, fmt.Sprintf("%s %s: for %s", rel, name, h))
+					}
+				case *ast.RangeStmt:
+					if wantGuard {
+						guards = append(guards, fmt.Sprintf("%s %s: range %s", rel, name, src(fset, x.X)))
+					}
+				case *ast.SwitchStmt:
+					if wantGuard {
+						tag := ""
+						if x.Tag != nil {
+							tag = src(fset, x.Tag)
+						}
+						for _, cc := range x.Body.List {
+							c := cc.(*ast.CaseClause)
+							var es []string
+							for _, e := range c.List {
+								es = append(es, src(fset, e))
+							}
+							lbl := "default"
+							if len(es) > 0 {
+								lbl = "case " + strings.Join(es, ", ")
+							}
+							guards = append(guards, fmt.Sprintf("%s %s: switch %s %s", rel, name, tag, lbl))
+						}
+					}
+				case *ast.TypeSwitchStmt:
+					if wantGuard {
+						for _, cc := range x.Body.List {
+							c := cc.(*ast.CaseClause)
+							var es []string
+							for _, e := range c.List {
+								es = append(es, src(fset, e))
+							}
+							lbl := "default"
+							if len(es) > 0 {
+								lbl = "case " + strings.Join(es, ", ")
+							}
+							guards = append(guards, fmt.Sprintf("%s %s: typeswitch %s %s", rel, name, src(fset, x.Assign), lbl))
+						}
+					}
+				case *ast.BranchStmt:
+					if wantGuard {
+						guards = append(guards, fmt.Sprintf("%s %s: %s", rel, name, src(fset, x)))
+					}
+				}
 				switch x := n.(type) {
 				case *ast.AssignStmt:
 					if len(x.Lhs) == 2 && len(x.Rhs) == 1 {
@@ -99,6 +172,16 @@ func genSites(repo string) (genFile, error) {
 		b.WriteString("]\n\n")
 	}
 	emit("allocSites", "every make / new / append call of the decoder packages, in source order: `file func: expression`", allocs)
+	for _, g := range []struct{ name, prefix, prefix2 string }{{"guardsReader", "reader/", ""}, {"guardsIpfix", "ipfix/", ""}, {"guardsV9", "netflow/v9/", ""},
+		{"guardsV5", "netflow/v5/", ""}, {"guardsSflow", "sflow/", "packet/"}} {
+		var l []string
+		for _, x := range guards {
+			if strings.HasPrefix(x, g.prefix) || (g.prefix2 != "" && strings.HasPrefix(x, g.prefix2)) {
+				l = append(l, x)
+			}
+		}
+		emit(g.name, "every branch / loop condition, switch case and break / continue under "+g.prefix+" "+g.prefix2+" (decoder / dissector / reader sources), in source order; plain `err != nil` propagation excluded", l)
+	}
 	emit("panicSites", "every index, slice and single-result type-assertion expression of the files C01 is anchored in", panics)
 	b.WriteString(footer("Sites"))
 	return genFile{"Sites", b.String()}, nil
